@@ -171,6 +171,9 @@ func wedgeSite(stacks string) string {
 func CheckC01(h *History) []Violation {
 	var v vio
 	sc := h.Scenario
+	if sc.Cfg.Concurrent {
+		return QuiescentIdentity(h, "C01")
+	}
 	used := map[string]int64{}     // acctKey -> online volume reported in accepted requests
 	credited := map[string]int64{} // acctKey -> money credited so far
 	absorbed := map[string]int64{} // acctKey -> discrepancies already reported
@@ -238,6 +241,56 @@ func CheckC01(h *History) []Violation {
 	return v.list
 }
 
+// QuiescentIdentity checks the accounting identity for every account once all requests
+// have completed (concurrent scenarios, where no per-op state is read).
+func QuiescentIdentity(h *History, prop string) []Violation {
+	var v vio
+	if h.Aborted {
+		return nil
+	}
+	sc := h.Scenario
+	all := append(append(append([]*OpResult(nil), h.Ops...), h.Epilogue...), h.Callbacks...)
+	used := map[string]int64{}
+	credited := map[string]int64{}
+	for _, a := range sc.Accounts {
+		credited[acctKey(a.Supi, a.RG)] = a.Quota
+	}
+	for _, o := range all {
+		if !o.Done || o.Skipped != "" {
+			continue
+		}
+		switch o.Op.Kind {
+		case "recharge":
+			credited[acctKey(o.Op.Supi, o.Op.RG)] += o.Op.TopUp
+		case "create", "update", "release":
+			if is2xx(o.Status) {
+				for rg, u := range onlineUsed(o) {
+					used[acctKey(o.Op.Supi, rg)] += u
+				}
+			}
+		}
+	}
+	for _, st := range h.Final {
+		cost, ok := intCost(sc.account(st.Supi, st.RG))
+		if !ok || !st.HasQuota {
+			continue
+		}
+		k := acctKey(st.Supi, st.RG)
+		want := credited[k] - cost*used[k]
+		if got := st.Quota + st.Reserved; got != want {
+			dir := "credit-created"
+			if got < want {
+				dir = "credit-destroyed"
+			}
+			v.add(prop, "quiescent-identity", dir, -1,
+				"after all concurrent requests completed: %s rg %d balance %d + reserved %d = %d, expected credited %d - cost %d x used %d = %d (diff %+d)",
+				st.Supi, st.RG, st.Quota, st.Reserved, got, credited[k], cost, used[k], want, got-want)
+			break
+		}
+	}
+	return v.list
+}
+
 // ---------------------------------------------------------------- C06
 
 // CheckC06: no overdraft; a grant is limited to what the available money buys.
@@ -272,8 +325,8 @@ func CheckC06(h *History) []Violation {
 				return v.list // everything after an overdraft is a consequence
 			}
 		}
-		if o.Op.Kind != "update" || o.Status != 200 {
-			continue
+		if o.Op.Kind != "update" || o.Status != 200 || o.Faulted {
+			continue // nothing but termination is required of an op whose exchange with a peer was disturbed
 		}
 		used := onlineUsed(o)
 		for _, u := range o.Op.Units {
@@ -577,6 +630,13 @@ func CheckC02(h *History) []Violation {
 			}
 			if rec.ConsumerName != s.CreateOp.Op.Consumer || rec.Functionality != 1 {
 				v.add("C02", "file-header", "field=consumer", s.CreateOp.Op.ID, "write #%d record %d of session %s: consumer %q functionality %d, create gave %q SMF(1)", i, ri, s.Name, rec.ConsumerName, rec.Functionality, s.CreateOp.Op.Consumer)
+				return v.list
+			}
+			if co := &s.CreateOp.Op; rec.ConsumerV4 != co.ConsumerV4 || (co.ConsumerV4 != "" && rec.ConsumerV4Alt != 2) ||
+				rec.ConsumerV6 != co.ConsumerV6 || (co.ConsumerV6 != "" && rec.ConsumerV6Alt != 3) || rec.ConsumerFqdn != co.ConsumerFqdn {
+				v.add("C02", "file-header", "field=consumer-address", co.ID,
+					"write #%d record %d of session %s: consumer addresses v4=%q(alt %d) v6=%q(alt %d) fqdn=%q, create gave v4=%q v6=%q fqdn=%q",
+					i, ri, s.Name, rec.ConsumerV4, rec.ConsumerV4Alt, rec.ConsumerV6, rec.ConsumerV6Alt, rec.ConsumerFqdn, co.ConsumerV4, co.ConsumerV6, co.ConsumerFqdn)
 				return v.list
 			}
 			if !openingTimeOK(rec.OpeningTime, s.CreateOp, tz) {
@@ -1005,7 +1065,7 @@ func snapDiff(a, b string) string {
 func snapDiffClass(a, b string) string {
 	d := snapDiff(a, b)
 	var kinds []string
-	for _, k := range []string{"quota=", "reserved[", "records", "cdr[", "file "} {
+	for _, k := range []string{"quota=", "reserved[", "records", "cdr[", "file ", "notify="} {
 		if strings.Contains(d, k) {
 			kinds = append(kinds, strings.Trim(k, "=[ "))
 		}
